@@ -34,16 +34,20 @@ def main():
     for t in getattr(mod, 'TRANSLATORS', []):
         importlib.import_module('translators.' + t).generate(core.REPO, os.path.join(core.LEAN, 'Pyc', 'Generated'))
     # 2. proofs: build the property's theorem file and whatever it imports
-    targets = ['Pyc.Props.' + pid] + list(getattr(mod, 'LEAN_MODULES', []))
+    prop_mods = list(getattr(mod, 'LEAN_PROPS', ['Pyc.Props.' + pid]))
+    targets = prop_mods + list(getattr(mod, 'LEAN_MODULES', []))
     ok, log, failed = core.lake_build(targets)
     thms, discharged, problems = [], 0, []
     if not ok:
         problems.append('lake build failed for %s: %s' % (failed or targets, log[-1500:]))
     else:
-        thms, alog = core.audit(pid)
-        if thms is None:
-            problems.append('axiom audit failed: ' + alog[-1500:])
-            thms = []
+        thms = []
+        for pm in prop_mods:
+            t, alog = core.audit(pid, pm)
+            if t is None:
+                problems.append('axiom audit of %s failed: %s' % (pm, alog[-1500:]))
+            else:
+                thms += t
         thms = [(t, ax) for t, ax in thms if t.startswith('Pyc.Props.%s.' % pid)]
         for name, ax in thms:
             if set(ax) <= core.ALLOWED_AXIOMS:
@@ -68,7 +72,7 @@ def main():
                       dict(kind='proof-obligation', problems=problems), found_input=False)
     obligations = max(len(thms), 1)
     return core.finish(ctx, (obligations, discharged if thms else 0),
-                       'cd lean && lake build %s && lean Audit/%s.lean  (axioms of every theorem in Pyc/Props/%s.lean)' % (' '.join(targets), pid, pid))
+                       'cd lean && lake build %s && lean Audit/<module>.lean  (axioms of every public theorem of %s)' % (' '.join(targets), ', '.join(prop_mods)))
 
 
 if __name__ == '__main__':
